@@ -362,6 +362,8 @@ def ev(e, env, allow_pow=True):
     if k == "*":
         return a * b
     if k == "/":
+        if b == 0:
+            raise QasmError("zeroDiv", "division by zero in a parameter expression")
         return a / b
     if k == "^":
         if not allow_pow:
